@@ -87,3 +87,32 @@ def batch_vs_single(r, cli, rng, features, flag_choices, fmt=None, keyprefix='cl
                           'alone : %s\nbatch : %s' % (core.show(ref[max(0, i - 60):i + 100]), core.show(got[max(0, i - 60):i + 100])))
     finally:
         shutil.rmtree(tdir, ignore_errors=True)
+
+
+def flag_relations(r, cli, rng, keyprefix='cli-flags'):
+    """option sets the tool documents as equivalent must render the same: -a together with -r cancel each other (main.c: "old options that
+    don't apply now"), in either order and in the long spelling"""
+    files, extra = gen_files(rng, {'critic'})
+    rel, data = files[0]
+    fmt = rng.choice(['html', 'latex', 'fodt'])
+    tdir = tempfile.mkdtemp(prefix='mmdv-flags-', dir=D.SCRATCH_ROOT)
+    try:
+        p = os.path.join(tdir, 'doc.txt')
+        open(p, 'wb').write(data)
+        rc0, ref, _ = _run(cli, ['-t', fmt, 'doc.txt'], tdir)
+        r.evaluations += 1
+        if rc0 != 0:
+            return
+        for flags in (['-a', '-r'], ['-r', '-a'], ['--accept', '--reject']):
+            rc, out, _ = _run(cli, flags + ['-t', fmt, 'doc.txt'], tdir)
+            r.evaluations += 1
+            r.stats['cli_flag_relations_checked'] += 1
+            if rc == 0 and out != ref:
+                i = 0
+                while i < min(len(out), len(ref)) and out[i] == ref[i]:
+                    i += 1
+                r.violate('%s:accept+reject-not-neutral' % keyprefix, 'multimarkdown %s -t %s renders differently from no CriticMarkup option at all (byte %d)' % (' '.join(flags), fmt, i),
+                          dict(source=core.show(data, 400), flags=flags, fmt=fmt), 'plain: %s\nflags: %s' % (core.show(ref[max(0, i - 60):i + 100]), core.show(out[max(0, i - 60):i + 100])))
+                break
+    finally:
+        shutil.rmtree(tdir, ignore_errors=True)
